@@ -238,6 +238,21 @@ if only30 and not official_gate(vs):
 return r[0] == 'ok'
 ''', 'the writers refuse (ValueError) to emit 3.0-only data found in grid metadata, column metadata or rows of a grid with a pre-3.0 version, and write it under 3.0-rules versions')
 
+add('nested_gate', 'vi: int, ki: int, js: bool', '1 <= vi < len(VERSIONS) and 0 <= ki <= 5', '''
+inner_ver = VERSIONS[conc(vi, 1, len(VERSIONS) - 1)]
+name, val, only30 = kinds()[conc(ki, 0, 5)]
+# a nested grid is gated by the version it declares itself, whatever the enclosing document says
+if js:
+    tree = {'meta': {'ver': '3.0'}, 'cols': [{'name': 'g'}], 'rows': [{'g': {'meta': {'ver': inner_ver}, 'cols': [{'name': 'a'}], 'rows': [{'a': JD.dump_scalar(val, version=VER_3_0)}]}}]}
+    r = outcome(lambda: hszinc.parse(copy.deepcopy(tree), mode=hszinc.MODE_JSON))
+else:
+    doc = 'ver:"3.0"\\ng\\n<<ver:"%s"\\na\\n%s\\n>>\\n' % (inner_ver, ZD.dump_scalar(val, version=VER_3_0))
+    r = outcome(lambda: hszinc.parse(doc, mode=hszinc.MODE_ZINC))
+if official_gate(inner_ver):
+    return r[0] == 'ok' and str(r[1][0]['g'].version) == inner_ver
+return r[0] == 'raises' and r[1] in ('ValueError', 'ZincParseException')
+''', 'a nested grid declaring a pre-3.0 version and holding 3.0-only data is rejected by both readers; accepted when it declares a 3.0-rules version')
+
 add('five_way_named', 'vi: int, ki: int', '1 <= vi < len(VERSIONS) and 0 <= ki <= 5', '''
 d = five_decisions(VERSIONS[conc(vi, 1, len(VERSIONS) - 1)], conc(ki, 0, 5))
 if d is None:
